@@ -366,7 +366,7 @@ func checkReflectSets(p *Prog, r *Report) {
 			}
 		})
 	}
-	r.floor("reflect setters", n, 4)
+	r.floor("reflect setters", n, 2)
 }
 
 func fnList(p *Prog, names []string) []*ssa.Function {
